@@ -356,6 +356,8 @@ def run_case(case, seed=0, solver_timeout_ms=60000, cvc5=False, selfcheck_points
     for a in b.extra_assumptions:
         vc.extra.append(a if isinstance(a, str) else a(ctx, vc))
     nclaims = 0
+    ineqs = [c for c in cl if c[0] == "GE0"]
+    cl = [c for c in cl if c[0] != "GE0"]
     for label, lhs, rhs in cl:
         L, Rr = _flat(lhs), _flat(rhs)
         if len(L) != len(Rr):
@@ -434,9 +436,57 @@ def run_case(case, seed=0, solver_timeout_ms=60000, cvc5=False, selfcheck_points
         if bad:
             res["noninterference_syntactic_leaks"] = bad[:5]
 
+    # sign claims (dimension-1 inequalities): one solver query each
+    ineq_bad = []
+    if ineqs and sol["result"] == "unsat":
+        res["inequalities"] = []
+        for _, label, expr, inst in ineqs:
+            for k, ex in enumerate(_flat(expr)):
+                try:
+                    text = vc.nonneg_text(ex, inst)
+                except Unsupported as uex:
+                    res.update(status="inconclusive", detail=f"inequality {label}: {uex}")
+                    return res
+                ri, dti, mi = VC.z3_check(text, solver_timeout_ms, want_model=True)
+                res["t_solver"] += dti
+                res["obligations"] += 1
+                res["inequalities"].append({"label": f"{label}#{k}", "z3": ri})
+                if ri == "unsat":
+                    if k == 0:
+                        # reachability twin: the opposite sign claim must be refutable (sat)
+                        rt, dtt, _ = VC.z3_check(vc.nonneg_text(-ex, inst), 20000)
+                        res["t_solver"] += dtt
+                        res["inequalities"][-1]["twin_opposite_sign"] = rt
+                        if rt != "sat":
+                            res.update(status="inconclusive", detail=f"inequality {label}: vacuity guard failed ({rt})")
+                            return res
+                    continue
+                ineq_bad.append((f"{label}#{k}", ri, mi))
+        if ineq_bad:
+            lab, ri, mi = ineq_bad[0]
+            if ri != "sat":
+                res.update(status="inconclusive", detail=f"inequality {lab}: solver {ri}")
+                return res
+            rng = random.Random(seed + 9)
+            best = None
+            for env in [dict({n: float((mi or {}).get(n, 1.0)) for n in ctx.names}, PI=math.pi)] + [random_env(ctx, rng) for _ in range(4)]:
+                rep = _replay(case, I, env)
+                if best is None or rep.get("reproduced"):
+                    best = rep
+                if rep.get("reproduced"):
+                    break
+            res["replay"] = best
+            res["violated"] = [l for l, _, _ in ineq_bad]
+            if best.get("reproduced"):
+                res.update(status="violation", detail=f"sign claim {lab} refuted; replay: {best.get('worst_label')} value={best.get('lhs')}")
+            else:
+                res.update(status="inconclusive", detail=f"sign claim {lab}: z3 sat (ln abstracted by the given instances) but no float64 counterexample reproduced")
+            res["discharged"] = res["obligations"] - len(ineq_bad)
+            return res
+
     if sol["result"] == "unsat":
         res["status"] = "unsat"
-        res["discharged"] = len(vc.obl)
+        res["discharged"] = res["obligations"]
         return res
     if sol["result"] != "sat":
         res.update(status="inconclusive", detail=f"solver: {sol['result']}")
@@ -481,7 +531,7 @@ def run_case(case, seed=0, solver_timeout_ms=60000, cvc5=False, selfcheck_points
         try:
             vca = VC(ctx)
             vca.bounds = dict(b.bounds)
-            for label, lhs, rhs in cfn(I, O, ops):
+            for label, lhs, rhs in [c for c in cfn(I, O, ops) if c[0] != "GE0"]:
                 L, Rr = _flat(lhs), _flat(rhs)
                 if len(Rr) == 1 and len(L) > 1:
                     Rr = Rr * len(L)
@@ -519,7 +569,14 @@ def _replay(case, I, env):
         return out
     worst = (0.0, None, 0.0, 0.0)
     nan = False
-    for label, lhs, rhs in cl:
+    for c in cl:
+        if c[0] == "GE0":
+            _, label, expr, _inst = c
+            for k, v in enumerate(np.asarray(expr, dtype=float).reshape(-1)):
+                if v < -1e-7 and -v > worst[0]:
+                    worst = (float(-v), f"{label}#{k}", float(v), 0.0)
+            continue
+        label, lhs, rhs = c
         a = np.asarray(lhs, dtype=float); bb = np.asarray(rhs, dtype=float)
         a, bb = np.broadcast_arrays(a, bb)
         for k, (x, y) in enumerate(zip(a.reshape(-1), bb.reshape(-1))):
